@@ -28,6 +28,7 @@ ASSUMPTIONS = [
 ]
 EXHAUSTIVE = {"quick": "multisets of <=5 sizes from {1,63,64,65,128,500} x group sizes 1..4 x 3 copies", "thorough": "multisets of <=7 sizes from {1,63,64,65,128,500} x group sizes 1..4 x 3 copies"}
 TIMEOUT = {"quick": 900, "thorough": 3600}
+CONFIRM_BY_RERUN = True  # ranks are threads here: an alarm must reproduce in a fresh process (vf/main.py)
 ANCHORS = {
     "distributed_shampoo/utils/shampoo_ddp_distributor.py": ["DDPDistributor._distribute_buffer_sizes", "DDPDistributor._split_local_dist_buffers", "DDPDistributor._construct_distributed_buffers"],
     "distributed_shampoo/utils/shampoo_hsdp_distributor.py": ["HSDPDistributor._distribute_buffer_sizes", "HSDPDistributor._split_local_dist_buffers", "HSDPDistributor._construct_distributed_buffers"],
